@@ -88,7 +88,7 @@ def gen_output(rng, kind, at_us):
          'keys': rng.choice(['bytes', 'bytes', 'object']),
          'sigfields': {}}
     for k in rng.sample(range(1, 9), rng.rng(1, 3)):
-        o['sigfields']['sigfield%d' % k] = rng.bytes(rng.choice([1, 8, 32, 100, 255, 256, 300])).hex()
+        o['sigfields']['sigfield%d' % k] = rng.bytes(rng.choice([0, 1, 8, 32, 100, 255, 256, 300])).hex()
     if kind == 'ptlc_tweak':
         t = bytearray(rng.bytes(32))
         t[31] &= 0x7f
